@@ -2,8 +2,8 @@
    value (three-valued for IN), the SQL evaluator only looks at the columns' values, hence the expression theorems apply to the
    whole formula with the subquery columns added to g's row. *)
 Require Import PonyV.Base.PyBase PonyV.Model.C01Expr PonyV.Model.C01Sql PonyV.Model.C01Translate PonyV.Model.C01Safe
-               PonyV.Model.C01Eqb PonyV.Model.C01Query PonyV.Model.C01Join PonyV.Model.C01Coll PonyV.Model.C01Form
-               PonyV.Proofs.C01Base PonyV.Proofs.C01Ref PonyV.Proofs.C01Ops PonyV.Proofs.C01Rows PonyV.Proofs.C01Join PonyV.Proofs.C01Coll.
+               PonyV.Model.C01Eqb PonyV.Model.C01Query PonyV.Model.C01Join PonyV.Model.C01Coll PonyV.Model.C01Aggr PonyV.Model.C01Form
+               PonyV.Proofs.C01Base PonyV.Proofs.C01Ref PonyV.Proofs.C01Ops PonyV.Proofs.C01Rows PonyV.Proofs.C01Join PonyV.Proofs.C01Coll PonyV.Proofs.C01Aggr.
 From Coq Require Import ZifyBool.
 
 (* ------------------------------------------------------------------------------------------- the evaluator is extensional *)
@@ -78,18 +78,23 @@ Definition subq_typed (s : subq) : bool :=
   match s with
   | SQExists c | SQCount c => cond_typed_ok c
   | SQIn _ a s => (a_id a <? 10)%nat && cond_typed_ok (set_cond s)
+  | SQAgg _ _ c => cond_typed_ok c
   end.
 
 Definition subq_dom (g : row) (s : subq) : Prop :=
   match s with
   | SQExists c | SQCount c => conds_dom d params db g c
   | SQIn v a s => val_dom d (genv g) v /\ conds_dom d params db g (set_cond s) /\ (forall m, In m (members g) -> env_ok (menv g m) (EAttr a) = true)
+  | SQAgg f item c =>
+      conds_dom d params db g c /\ (forall m, In m (members g) -> val_dom d (menv g m) item) /\
+      (* known bad, per dialect: PostgreSQL has no sum of a boolean *)
+      match f with FSum => negb (pg d && is_boolty item) = true | _ => True end
   end.
 
 Theorem subq_sound : forall g s x, subq_typed s = true -> subq_dom g s -> tr_subq d s = Some x ->
   xval d params db g x = enc d (pyval params db g s).
 Proof.
-  intros g s x Ty Dom E. destruct s as [c|v a s|c]; cbn [tr_subq subq_typed subq_dom pyval] in *.
+  intros g s x Ty Dom E. destruct s as [c|v a s|c|f item c]; cbn [tr_subq subq_typed subq_dom pyval] in *.
   - (* exists *)
     destruct (tr_conds d c) as [cs|] eqn:F; [|discriminate]. inversion E; subst. cbn [xval enc].
     rewrite (sub_rows_sound d Hd params db g c cs Ty Dom F), nonempty_existsb. reflexivity.
@@ -136,6 +141,28 @@ Proof.
     destruct (tr_conds d c) as [cs|] eqn:F; [|discriminate]. inversion E; subst. cbn [xval enc].
     rewrite (sub_rows_sound d Hd params db g c cs Ty Dom F).
     rewrite count_pk by (apply pk_ok_filter; apply pk_ok_filter; exact PK). reflexivity.
+  - (* sum / min / max / count of an item expression *)
+    destruct Dom as [Dc [Di Sf]].
+    assert (NA : f <> FAvg) by (intro; subst f; discriminate E).
+    destruct (ty_of item) as [[t| |]|] eqn:Ti; try (destruct f; discriminate E).
+    destruct (tr_project d item) as [q|] eqn:Q; [|destruct f; discriminate E].
+    destruct (tr_conds d c) as [cs|] eqn:F; [|destruct f; discriminate E].
+    destruct (aggr_ty_ok f t && item_ok f t item) eqn:Ok2; [|destruct f; discriminate E]. apply andb_prop in Ok2. destruct Ok2 as [Ok _].
+    assert (Ex : x = XSAgg f (match f with FCount => true | _ => false end) q (sub_join, cs)) by (destruct f; inversion E; try reflexivity; congruence).
+    subst x. cbn [xval]. rewrite (sub_rows_sound d Hd params db g c cs Ty Dc F).
+    set (sel := filter (cond_holds params c g) (members g)).
+    assert (SelIn : forall m, In m sel -> In m (members g)) by (intros m Hm; apply filter_In in Hm; tauto).
+    assert (ME : map (fun m => qeval d (encenv d (menv g m)) q) sel = map (enc d) (map (fun m => ref_eval (menv g m) item) sel)).
+    { rewrite map_map. apply map_ext_in. intros m Hm. destruct (Di m (SelIn m Hm)) as [A4 [A5 A6]].
+      destruct (project_ref d Hd _ item t Ti A4 A5 A6) as [q' [E' [Qv _]]]. rewrite Q in E'. inversion E'; subst. exact Qv. }
+    assert (TY : Forall (fun v => has_vty v t = true) (map (fun m => ref_eval (menv g m) item) sel)).
+    { rewrite Forall_map. apply Forall_forall. intros m Hm. destruct (Di m (SelIn m Hm)) as [A4 [A5 A6]].
+      unfold ref_eval. rewrite <- (clean_same _ item A6). exact (reval_typed true _ item (TV t) Ti A4). }
+    assert (VS : vals_safe d f t = true).
+    { destruct f; try reflexivity; [|congruence]. unfold is_boolty in Sf. rewrite Ti in Sf. cbn [vals_safe]. destruct t; cbn in *; try reflexivity; exact Sf. }
+    rewrite ME. destruct (vals_sound d f (match f with FCount => true | _ => false end) t _ Hd Ok VS TY) as [R _]. rewrite R.
+    destruct (py_aggr_vals f (match f with FCount => true | _ => false end) (map (fun m => ref_eval (menv g m) item) sel)) eqn:PA; [reflexivity|].
+    exfalso. unfold py_aggr_vals in PA. destruct f; try discriminate PA. congruence.
 Qed.
 
 Lemma subqs_sound : forall g subs xs, forallb subq_typed subs = true -> Forall (subq_dom g) subs -> tr_subqs d subs = Some xs ->
